@@ -49,6 +49,10 @@ CHECKS = {
                 text="in every state of the C02 space, for every query of the menu and every Limit from 1 to |result|+1 the concatenated pages equal the unpaginated result of the same client, within the page budget; and for every page boundary of every walk of the reduced menu, deleting the boundary item does not lose any remaining item",
                 note="same universes as C02; the boundary-deletion pass rebuilds a fresh client per boundary (replay of the history)",
                 ref="DESIGN.md 3/C04"),
+    "C17": dict(engine="E1", technique="explicit-state model checking of the product of the two real clients (BFS to closure; oracle = agreement of the normalised responses of v1 and v2 on every transition and every observation read)",
+                text="every history over the union of the C01/C03/C05/C08/C15/C18/C19 alphabets and the query/pagination menu produces identical normalised responses through the v1 and the v2 client at every step",
+                note="InvalidParameter (SDK v1 client-side validation) and ValidationException are one class; ProjectionType and other fields outside the normalised response are not compared; ReturnValuesOnConditionCheckFailure is not expressible in the v1 request types",
+                ref="DESIGN.md 3/C17"),
 }
 
 PENDING = {}
